@@ -300,7 +300,7 @@ pub fn run(rep: &Report) {
     let quick = rep.quick();
     let ia = issuer_alphabet();
     let ha = holder_alphabet();
-    let full_len = if quick { 3 } else { 5 };
+    let full_len = if quick { 4 } else { 5 };
     // issuer: full alphabet
     let seqs = sequences(ia.len(), full_len);
     par_for(rep, seqs.len(), |i, l| run_issuer_seq(&ia, &seqs[i], Alg::HS256, l));
